@@ -467,7 +467,7 @@ func TestVerifC03(t *testing.T) {
 	defer r.Flush()
 	depth := 5
 	if ev.Thorough() {
-		depth = 7
+		depth = 9
 	}
 	r.Rule(fmt.Sprintf("breadth-first search to depth %d (from the empty cluster and from a root with a bound, set-up pod) over events of BOTH processes on one fake API server: kubelet {podCreate, podRemove (also before DEL = force delete; create after remove = same name, new UID)}, node agent = real networkService in CRD mode + real CRDV2 {ADD, DEL, flush of the teardown report (optionally with the API write failing), syncDeletedPods, agent GC (cleanRuntimeNode), agent restart}, control plane = real ReconcileNode {reconcile, reconcile with failing status update, restart, clock}; transition invariants: an address bound to (pod, uid) is unbound / marked Deleting / unassigned only if no pod of that name exists AND NodeRuntime reports uid as deleted; a teardown report appears only for a uid whose DEL this agent instance processed or whose pod is absent; closure from every state: pod gone + DEL processed => address freed within 6 healthy rounds", depth))
 	if rp := os.Getenv("VERIF_REPLAY"); rp != "" {
